@@ -14,7 +14,7 @@ macro "rt_step" h:ident : tactic => `(tactic| (
   repeat' split at $h:ident
   all_goals (try simp only [Option.some.injEq, reduceCtorEq] at $h:ident)
   all_goals (try subst $h:ident)
-  all_goals (try simp only [subPending, dropTask, startPoll, kWrite, doArm, doSubmit])))
+  all_goals (try simp only [subPending, dropTask, startPoll, kWrite, overflowPush, doSubmit])))
 
 theorem mem_hotPush {d : Nat → Bool} {hot : List Nat} {t x : Nat} :
     x ∈ hotPush d hot t ↔ x ∈ hot ∨ (x = t ∧ d t = false) := by
